@@ -1430,6 +1430,17 @@ def analyse_ambiguity(pattern, flags, bound=6):
         }
     for lp, rec in by_loop.items():
         rec['signature'] = ' ; '.join(sorted(sigs.get(lp, [])))
+    # is a run of whitespace ALONE enough to pump an exploitable ambiguity?  (a discriminating fact of
+    # its own: real text is full of blank runs, while the other pumps need punctuation / words)
+    res['ws_pump'] = None
+    for e in A.find_eda():
+        if e['pump'] and e['pump'].isspace():
+            verdict, z = A.exploitable(e['pivot'], e['pump'], bound)
+            if verdict == 'exploitable':
+                pre = A.shortest_prefix(e['pivot']) or ''
+                zz = '' if z in (None, EOS) else z
+                res['ws_pump'] = {'pump': e['pump'], 'loop': e['loop'], 'witness': f"{pre!r} + {e['pump']!r}*n + {zz!r}"}
+                break
     res['eda'] = list(by_loop.values())
     res['divergence_points'] = n_div
     deg, chain, links = A.find_ida()
@@ -1725,3 +1736,33 @@ def iteration_groups(pattern, flags=0):
                     top(s2)
     top(tree)
     return out
+
+
+def consumes_only(pattern, flags, pred):
+    """Every character a match of `pattern` can consume satisfies `pred`
+    (decided on the parse tree: literals, classes without negation, categories
+    via a probe alphabet).  Look-arounds consume nothing and are not judged."""
+    probe = [chr(c) for c in range(0, 256)] + [' ', '¼', '½', '–', '—']
+
+    def ok_item(op, av):
+        if op is C.LITERAL:
+            return pred(chr(av))
+        if op is C.NOT_LITERAL or op is C.ANY:
+            return False
+        if op is C.IN:
+            return all(pred(ch) for ch in probe if char_matches(op, av, ch, flags)) and not any(o is C.NEGATE for o, _ in av)
+        if op is C.SUBPATTERN:
+            return ok_seq(av[3])
+        if op is C.BRANCH:
+            return all(ok_seq(alt) for alt in av[1])
+        if op in REPEATS:
+            return ok_seq(av[2])
+        if op in (C.AT, C.ASSERT, C.ASSERT_NOT):
+            return True
+        if op is getattr(C, 'ATOMIC_GROUP', None):
+            return ok_seq(av)
+        return False
+
+    def ok_seq(sub):
+        return all(ok_item(op, av) for op, av in sub)
+    return ok_seq(parse(pattern, flags))
